@@ -156,7 +156,7 @@ pub fn run(ctx: &Ctx) {
                     let (rq, rs) = match &c.script {
                         Script::Http2 { req, resp } => (req.clone(), resp.clone()),
                         _ => {
-                            let e = crate::props::c09::Exchange::H2 { req: crate::props::c16::H2Case { request: true, block: crate::gen::h2::Block { size_updates: vec![], fields: vec![] }, framing: crate::gen::h2::HeadersFraming { stream: 1, end_stream: true, pad: None, priority: None, splits: vec![], reserved_bit: false }, pre: vec![], body: None , hostile_tail: vec![], flag_xor: 0 }, resp: crate::props::c16::H2Case { request: false, block: crate::gen::h2::Block { size_updates: vec![], fields: vec![] }, framing: crate::gen::h2::HeadersFraming { stream: 1, end_stream: true, pad: None, priority: None, splits: vec![], reserved_bit: false }, pre: vec![crate::props::c16::PreFrame::Settings(vec![(3, 100)])], body: None , hostile_tail: vec![], flag_xor: 0 } };
+                            let e = crate::props::c09::Exchange::H2 { req: crate::props::c16::H2Case { request: true, block: crate::gen::h2::Block { size_updates: vec![], fields: vec![] }, framing: crate::gen::h2::HeadersFraming { stream: 1, end_stream: true, pad: None, priority: None, splits: vec![], reserved_bit: false, cont_flags: 0 }, pre: vec![], body: None , hostile_tail: vec![], flag_xor: 0 }, resp: crate::props::c16::H2Case { request: false, block: crate::gen::h2::Block { size_updates: vec![], fields: vec![] }, framing: crate::gen::h2::HeadersFraming { stream: 1, end_stream: true, pad: None, priority: None, splits: vec![], reserved_bit: false, cont_flags: 0 }, pre: vec![crate::props::c16::PreFrame::Settings(vec![(3, 100)])], body: None , hostile_tail: vec![], flag_xor: 0 } };
                             match e {
                                 crate::props::c09::Exchange::H2 { req, resp } => (req, resp),
                                 _ => unreachable!(),
